@@ -371,20 +371,31 @@ def structural(repo):
     out.append({'id': 'setting-writers', 'kind': 'effect', 'ok': okw,
                 'label': 'allow_unsafe_executions is written only by InferenceState.__init__ (False) and Interpreter.__init__',
                 'detail': repr(writers)})
-    # callers pass safe = not allow_unsafe_executions
+    # callers pass safe = not allow_unsafe_executions: EVERY call of a safe-sensitive access method on an access
+    # handle, anywhere in jedi/ (a new call site without the flag runs user code in safe mode: the defaults of
+    # py__bool__ / has_iter are safe=False)
     t3 = tree('jedi/inference/compiled/value.py')
-    calls = {}
-    if t3 is not None:
-        for n in ast.walk(t3):
+    sites = []
+    from pyvc import inventory as inv2
+    for rel, path in inv2.py_files(repo):
+        try:
+            tt = inv2.parse(path)
+        except SyntaxError:
+            continue
+        for n in ast.walk(tt):
             if isinstance(n, ast.Call) and isinstance(n.func, ast.Attribute) \
-                    and n.func.attr in ('py__bool__', 'has_iter', 'py__simple_getitem__') \
-                    and 'access_handle' in norm(n.func.value):
-                calls[n.func.attr] = {k.arg: norm(k.value) for k in n.keywords}
-    okc = all(calls.get(m, {}).get('safe') == 'not self.inference_state.allow_unsafe_executions'
-              for m in ('py__bool__', 'has_iter', 'py__simple_getitem__'))
-    out.append({'id': 'callers-pass-safe', 'kind': 'call-pre', 'ok': okc if t3 else None,
-                'label': 'CompiledValue passes safe = not allow_unsafe_executions to py__bool__, has_iter and '
-                         'py__simple_getitem__', 'detail': repr(calls)})
+                    and n.func.attr in ('py__bool__', 'has_iter', 'py__simple_getitem__', 'py__getitem__all_values') \
+                    and ('access_handle' in norm(n.func.value) or rel.endswith('compiled/access.py')):
+                kw = {k.arg: norm(k.value) for k in n.keywords}
+                sites.append((rel, n.lineno, n.func.attr, kw.get('safe')))
+    bad_sites = [x for x in sites if x[3] is None]
+    odd_sites = [x for x in sites if x[3] is not None and not (x[3] == 'safe' or (x[3].startswith('not ')
+                                                                                  and x[3].endswith('allow_unsafe_executions')))]
+    okc = bool(sites) and not bad_sites and not odd_sites
+    out.append({'id': 'callers-pass-safe', 'kind': 'call-pre', 'ok': okc if t3 else None, 'definite': bool(bad_sites),
+                'label': 'every call of py__bool__ / has_iter / py__simple_getitem__ / py__getitem__all_values on an access '
+                         'handle passes safe = not allow_unsafe_executions (or hands its own safe flag on)',
+                'detail': 'without safe: %r; other: %r; all: %r' % (bad_sites, odd_sites, sites)})
     # descriptor hits become empty names unless unsafe executions are allowed
     g = find_function(t3, 'CompiledValueFilter._get') if t3 else None
     s3 = norm(g)
